@@ -394,7 +394,7 @@ def wild(rng, p, first=None):
 
 
 def h265_stream(rng, n_au=None, pre=None, lead3=False, small=False, extras=True, plain=False, sub=None, aud=True,
-                wild_params=None, params=None):
+                wild_params=None, params=None, sps_switch=False):
     """An Annex B elementary stream: every access unit starts with an access
     unit delimiter; IDR access units carry VPS, SPS and PPS; the other
     pictures are P / B pictures; `pre` access units come before the first
@@ -410,6 +410,13 @@ def h265_stream(rng, n_au=None, pre=None, lead3=False, small=False, extras=True,
     stream, aus = [], []
     poc = 5
     force_idr = False
+    # sps_switch: from some later IDR on, the SPS (same id) has other contents - another bit depth, same
+    # picture size - while VPS and PPS stay octet for octet the same (a splice / a reconfigured encoder)
+    switch_at = None
+    p_sps = p
+    if sps_switch:
+        n_au = max(n_au, 4)
+        switch_at = pre + 1 + rng.below(n_au - 2)
 
     def payload():
         n = rng.below(4 if small else 24)
@@ -421,8 +428,10 @@ def h265_stream(rng, n_au=None, pre=None, lead3=False, small=False, extras=True,
     for i in range(pre + n_au):
         start = len(stream)
         first = start == 0
-        idr = i >= pre and (i == pre or force_idr or rng.chance(1, 4))
+        idr = i >= pre and (i == pre or force_idr or i == switch_at or rng.chance(1, 4))
         force_idr = False
+        if i == switch_at:
+            p_sps = dict(p, depth=10 if p["depth"] == 8 else 8)
         if idr:
             typ, tid1, stype, poc = rng.choice([IDR_W_RADL, IDR_N_LP]), 1, 2, 0
         else:
@@ -433,7 +442,7 @@ def h265_stream(rng, n_au=None, pre=None, lead3=False, small=False, extras=True,
         sc1 = 3 if (first and lead3) else 4
         au = h265_aud(0 if idr else (1 if stype == 1 else 2), tid1, sc1) if aud else []
         if idr:
-            au += h265_vps(p, sc() if au else sc1) + h265_sps(p, sc()) + h265_pps(p, sc())
+            au += h265_vps(p, sc() if au else sc1) + h265_sps(p_sps, sc()) + h265_pps(p, sc())
         if extras and rng.chance(1, 5):
             au += h265_sei(PREF_SEI, tid1, rng, sc() if au else sc1)
         first_vcl_sc = None if au else sc1
@@ -459,6 +468,8 @@ def h265_stream(rng, n_au=None, pre=None, lead3=False, small=False, extras=True,
         feats.append("no-access-unit-delimiters")
     if any(x[0] != x[1] for x in p["sub"]):
         feats.append("sub-layer-profile-and-level-flags-differ")
+    if sps_switch:
+        feats.append("sps-contents-change-with-unchanged-pps")
     # conformance window offsets (0, 1, 0, 1) in chroma sample units (7.4.3.2.1, Table 6-1)
     subw, subh = {0: (1, 1), 1: (2, 2), 2: (2, 1)}.get(p["chroma"], (1, 1))
     dims2 = [p["w"] - subw, p["h"] - subh] if p["crop"] else [p["w"], p["h"]]
@@ -544,6 +555,11 @@ def framer_executions(rng, quick):
         pr["extra"], pr["log2_poc"] = extra, 4 + k
         ste = h265_stream(vlib.Rng(30 + k), n_au=16, pre=0, small=True, extras=False, params=pr)
         exes.append(framer_exe(ste, [a[0] for a in ste["aus"][1:]], None, "annexb", "directed extra slice header bits"))
+    # the contents of the SPS change (same id) at a later IDR while VPS and PPS are repeated unchanged
+    for k in range(3):
+        stw = h265_stream(vlib.Rng(40 + k), n_au=5, pre=0, small=True, extras=False, plain=True, sps_switch=True)
+        exes.append(framer_exe(stw, [], None, "annexb", "directed sps switch whole"))
+        exes.append(framer_exe(stw, [a[0] for a in stw["aus"][1:]], None, "annexb", "directed sps switch per access unit"))
     # no access unit delimiters: the access units begin with parameter sets, SEI or the first slice segment
     stn = h265_stream(vlib.Rng(13), n_au=4, pre=0, small=True, extras=False, plain=True, aud=False)
     exes.append(framer_exe(stn, [], None, "annexb", "directed no delimiter whole"))
@@ -551,7 +567,7 @@ def framer_executions(rng, quick):
     exes.append(framer_exe(stn, [a[0] for a in stn["aus"][1:]], None, "annexb", "directed no delimiter per access unit"))
     # random streams, several cuttings of each (the same stream must give the same access units)
     for _ in range(40 if quick else 1500):
-        st = h265_stream(rng, aud=not rng.chance(1, 4))
+        st = h265_stream(rng, aud=not rng.chance(1, 4), sps_switch=rng.chance(1, 6))
         n = len(st["stream"])
         # (Convert of NalOps over run-length strings is slow in TLC: fewer converted outputs in the quick tier)
         out = "annexb" if rng.chance(5 if quick else 2, 6 if quick else 3) else rng.choice(["len4", "len2", "nalu"])
@@ -593,7 +609,7 @@ def framer_executions(rng, quick):
             st = h265_stream(rng, wild_params=k // 3, aud=not rng.chance(1, 4))
             s2 = list(st["stream"]) if rng.chance(2, 3) else corrupt(rng, list(st["stream"]))
         else:
-            st = h265_stream(rng, aud=not rng.chance(1, 4))
+            st = h265_stream(rng, aud=not rng.chance(1, 4), sps_switch=rng.chance(1, 6))
             s2 = corrupt(rng, list(st["stream"]))
         n = len(s2)
         cuts = sorted(set(1 + rng.below(n - 1) for _ in range(rng.below(5)))) if n > 1 else []
